@@ -416,15 +416,17 @@ def extract_fn(item, opts, blocks, rewrites_log, as_stub=False):
         byval = (opts.get('foreachval') or '').split(',')      # owned Vec of Copy elements iterated by value: `let v = X[k];`
         q = bodyp + 1; ne = 0
         while q < bodye - 5:
-            if tk(q)[1] == 'for' and tk(q + 1)[0] == 'id' and tk(q + 2)[1] == 'in':
+            amp = 1 if (tk(q)[1] == 'for' and tk(q + 1)[1] == '&' and tk(q + 2)[0] == 'id' and tk(q + 3)[1] == 'in') else 0      # `for &v in X`: the elements by value
+            if amp: q += 1
+            if tk(q - amp)[1] == 'for' and tk(q + 1)[0] == 'id' and tk(q + 2)[1] == 'in':
                 e = q + 3
                 while e < bodye and tk(e)[1] != '{' and e - q < 12: e += 1
                 xt = ''.join(tk(i)[1] for i in range(q + 3, e))
                 if tk(e)[1] == '{' and xt and xt in names:
                     ne += 1; v = tk(q + 1)[1]; x = xt[1:] if xt.startswith('&') else xt; iv = 'verif_e%d' % ne
-                    edits.append((tk(q + 1)[2], tk(q + 1)[3], R('4', v, iv)))
+                    edits.append((tk(q + 1 - amp)[2], tk(q + 1)[3], R('4', text[tk(q + 1 - amp)[2]:tk(q + 1)[3]], iv)))
                     edits.append((tk(q + 3)[2], tk(e - 1)[3], R('4', text[tk(q + 3)[2]:tk(e - 1)[3]], '0..%s.len()' % x)))
-                    edits.append((tk(e)[3], tk(e)[3], R('4', '', ' let %s = %s%s[%s];' % (v, '' if xt in byval else '&', x, iv))))
+                    edits.append((tk(e)[3], tk(e)[3], R('4', '', ' let %s = %s%s[%s];' % (v, '' if (xt in byval or amp) else '&', x, iv))))
                     rewrites_log.append({'rule': 'R4', 'fn': item.name, 'before': 'for %s in %s {' % (v, xt), 'after': 'for %s in 0..%s.len() { let %s = &%s[%s];' % (iv, x, v, x, iv)})
                     q = e + 1; continue
             q += 1
